@@ -5,6 +5,10 @@
    case:  (case n hist <binary> <L> <sync> <nb> (( <event> ( <obs of bundle 0> ... ) ) ...))
    event: (create b origin viaRx dst (blk?) (prev?)) | (up cla node fail) | (down cla) |
           (setfail cla fail) | (tick) | (gc)
+          | (par-gc mode <event> c0 c1)   generator C18sprayconc: the metadata garbage collection runs
+            concurrently with the event (mode 1: started before it, 2: from inside SenderForBundle,
+            3: from inside Send); c0 / c1 = metadata entries before the harness added leftovers of
+            unknown bundles / after event and collection
    obs:   ( ((cla node ok (blk?)) ...)  () | (rem (sent...))  stored ) *)
 open Model
 open Conv
@@ -42,6 +46,7 @@ type bstate = {
   mutable prev_rem : n option;     (* implementation's count after the previous event *)
   mutable dead : bool;             (* model already diverged: stop comparing *)
   mutable pdead : bool;            (* property already failed for this bundle: report only the first failure *)
+  mutable bdead : bool;            (* ... except that an exceeded budget is always reported (once) *)
 }
 
 let hist = function
@@ -49,7 +54,7 @@ let hist = function
     let binary = s_bool binary and ln = s_n l and sync = s_bool sync and nb = s_int nb in
     let conf = { sc_algo = (if binary then SprayBinary else SprayVanilla); sc_L = ln } in
     let bs = Array.init nb (fun _ -> { st = spray_init; created = false; origin = false; dst = 0; init_copies = N0;
-                                       outs = []; prev_rem = None; dead = false; pdead = false }) in
+                                       outs = []; prev_rem = None; dead = false; pdead = false; bdead = false }) in
     let res = ref [] in
     let tags = Hashtbl.create 16 in
     let tag t = Hashtbl.replace tags t () in
@@ -62,8 +67,21 @@ let hist = function
         let e, obs = (match lst ev with [e; o] -> e, Array.of_list (lst o) | _ -> raise (Bad "event")) in
         if Array.length obs <> nb then raise (Bad "obs count");
         (* which model event for which bundle *)
-        let el = lst e in
+        let el0 = lst e in
+        let gcmode, el, counts = (match el0 with
+            | [Atom "par-gc"; m; inner; c0; c1] -> s_int m, lst inner, Some (s_int c0, s_int c1)
+            | _ -> 0, el0, None) in
         let kind = s_sym (List.hd el) in
+        if gcmode > 0 then begin
+          tag ("gc-overlap-" ^ (match gcmode with 1 -> "first" | 2 -> "select" | _ -> "send") ^ "-" ^ kind);
+          (* the collection removes the leftovers and nothing else (no bundle of these histories leaves the store) *)
+          (match counts with
+           | Some (c0, c1) ->
+             let want = c0 + (if kind = "create" then 1 else 0) in
+             if c1 <> want then
+               res := Mismatch (Printf.sprintf "event %d (%s, metadata GC running): %d metadata entries afterwards, expected %d (entries before %d; leftovers of unknown bundles are collected, live entries stay)" !evno kind c1 want c0) :: !res
+           | None -> ())
+        end;
         let mev_for (bi : int) : sevent option =
           match kind, List.tl el with
           | "create", [b; origin; _viarx; dst; blk; prev] ->
@@ -102,7 +120,14 @@ let hist = function
                   | None -> ()) o_sends;
               (* ---------- correspondence: model step with the observed choice as oracle ---------- *)
               let choice = List.map (fun o -> n_of_int o.o_cla) o_sends in
-              (match spray_step conf b.st mev choice with
+              let mstep = if gcmode = 0 then spray_step conf b.st mev choice
+                else (match spray_step_gc false conf b.st mev choice, spray_step_gc true conf b.st mev choice with
+                    | Some (s1, o1), Some (s2, o2) when s1 = s2 && o1 = o2 -> Some (s1, o1)
+                    | Some _, Some _ ->
+                      (* the two serial orders differ (the event removes the bundle from the store): not generated *)
+                      tag "gc-overlap-order-matters"; spray_step_gc false conf b.st mev choice
+                    | r, _ -> r) in
+              (match mstep with
                | None ->
                  b.dead <- true;
                  res := Mismatch (where ^ "the model does not allow the observed choice of senders [" ^
@@ -137,7 +162,19 @@ let hist = function
                 let nfail = List.length (List.filter (fun o -> not o.o_ok) o_sends) in
                 let direct_fail = List.exists (fun o -> (not o.o_ok) && o.o_node = b.dst) o_sends in
                 let relays = List.filter (fun o -> o.o_node <> b.dst) o_sends in
-                let pf key detail = if not b.pdead then begin b.pdead <- true; res := Propfail (key, where ^ detail) :: !res end in
+                let pf key detail =
+                  (* an update of the metadata made while the collection ran has been lost *)
+                  let key, detail =
+                    if gcmode > 0 && key <> "spray.budget.exceeded" && key <> "bspray.single-copy.relayed" then
+                      (if binary then "bspray.gc.lost-update" else "spray.gc.lost-update"),
+                      "while the metadata garbage collection ran: " ^ detail
+                    else key, detail in
+                  if key = "spray.budget.exceeded" then begin
+                    if not b.bdead then begin b.bdead <- true; b.pdead <- true; res := Propfail (key, where ^ detail) :: !res end end
+                  else if not b.pdead then begin b.pdead <- true; res := Propfail (key, where ^ detail) :: !res end in
+                (* a pending bundle without metadata has lost its copy budget (never sprayed again) *)
+                if o_stored && o_meta = None then
+                  pf "spray.metadata.lost" "the store knows the bundle but the algorithm has no metadata for it";
                 if not binary then begin
                   if b.origin then begin
                     if not (spray_budget_ok ln dstn b.outs) then
@@ -190,4 +227,4 @@ let hist = function
     if bad = [] then [Ok_ (List.sort compare (Hashtbl.fold (fun k () acc -> k :: acc) tags []))] else bad
   | _ -> raise (Bad "hist case")
 
-let () = register "C18spray" "hist" hist
+let () = register "C18spray" "hist" hist; register "C18sprayconc" "hist" hist
